@@ -1,3 +1,6 @@
 import OdfProps.C19
 import OdfProps.C18
 import OdfProps.C05
+import OdfProps.C01
+import OdfProps.C02
+import OdfProps.C07
